@@ -47,24 +47,24 @@ import (
 // fakeTB satisfies testing.TB for ibctesting's constructors; a failed require panics (caught by lib.Safe).
 type fakeTB struct{ testing.TB }
 
-func (fakeTB) Helper()                           {}
-func (fakeTB) Name() string                      { return "verif-chain" }
-func (fakeTB) Logf(string, ...any)               {}
-func (fakeTB) Log(...any)                        {}
-func (fakeTB) Errorf(f string, a ...any)         { panic("ibctesting: " + fmt.Sprintf(f, a...)) }
-func (fakeTB) Error(a ...any)                    { panic("ibctesting: " + fmt.Sprint(a...)) }
-func (fakeTB) Fatalf(f string, a ...any)         { panic("ibctesting: " + fmt.Sprintf(f, a...)) }
-func (fakeTB) Fatal(a ...any)                    { panic("ibctesting: " + fmt.Sprint(a...)) }
-func (fakeTB) FailNow()                          { panic("ibctesting: FailNow") }
-func (fakeTB) Fail()                             { panic("ibctesting: Fail") }
-func (fakeTB) Failed() bool                      { return false }
-func (fakeTB) Cleanup(func())                    {}
-func (fakeTB) TempDir() string                   { return "/tmp" }
-func (fakeTB) Setenv(string, string)             {}
-func (fakeTB) Skip(...any)                       {}
-func (fakeTB) SkipNow()                          {}
-func (fakeTB) Skipf(string, ...any)              {}
-func (fakeTB) Skipped() bool                     { return false }
+func (fakeTB) Helper()                   {}
+func (fakeTB) Name() string              { return "verif-chain" }
+func (fakeTB) Logf(string, ...any)       {}
+func (fakeTB) Log(...any)                {}
+func (fakeTB) Errorf(f string, a ...any) { panic("ibctesting: " + fmt.Sprintf(f, a...)) }
+func (fakeTB) Error(a ...any)            { panic("ibctesting: " + fmt.Sprint(a...)) }
+func (fakeTB) Fatalf(f string, a ...any) { panic("ibctesting: " + fmt.Sprintf(f, a...)) }
+func (fakeTB) Fatal(a ...any)            { panic("ibctesting: " + fmt.Sprint(a...)) }
+func (fakeTB) FailNow()                  { panic("ibctesting: FailNow") }
+func (fakeTB) Fail()                     { panic("ibctesting: Fail") }
+func (fakeTB) Failed() bool              { return false }
+func (fakeTB) Cleanup(func())            {}
+func (fakeTB) TempDir() string           { return "/tmp" }
+func (fakeTB) Setenv(string, string)     {}
+func (fakeTB) Skip(...any)               {}
+func (fakeTB) SkipNow()                  {}
+func (fakeTB) Skipf(string, ...any)      {}
+func (fakeTB) Skipped() bool             { return false }
 
 const (
 	ChainID   = "testchain1-1" // revision 1
@@ -85,7 +85,7 @@ type Env struct {
 
 	// per-op scripting
 	cur     *opScript
-	cbLog   []string // callbacks of the op being executed
+	cbLog   []string          // callbacks of the op being executed
 	Signers map[string]string // symbolic signer -> bech32
 	names   map[string]string // bech32 -> symbolic signer
 
@@ -256,8 +256,8 @@ type result struct {
 	bad   string
 }
 
-func okRes(ret string) result  { return result{class: "ok", ret: ret} }
-func errRes(err error) result  { return result{err: err} }
+func okRes(ret string) result { return result{class: "ok", ret: ret} }
+func errRes(err error) result { return result{err: err} }
 
 var _ = log.NewNopLogger
 var _ = dbm.NewMemDB
